@@ -62,7 +62,8 @@ def bounded(check):
                     "declaration order, faults contained and accounted)", level="bounded",
                bound="every graph of <= 3 plain components (per earlier component: none / required / optional / one of two at-least-one groups / "
                      "required and grouped) x outcomes (value%s, skip, crash) x {nothing, failing observer, one disabled, one seeded with a value, one "
-                     "seeded with None, partial graph} x store_skips" % (", None" if check.tier != "quick" else ""),
+                     "seeded with None, partial graph} x store_skips; dependency closure of every graph of <= 5 components, and again after a dependency was "
+                     "added to a component of the closure (<= 4); priority attributes on components" % (", None" if check.tier != "quick" else ""),
                result=info, violation=(p.returncode == 1), error=(p.returncode not in (0, 1)))
     if p.returncode == 1:
         os.makedirs(os.path.join(here, "replays"), exist_ok=True)
